@@ -126,7 +126,7 @@ def main():
     elif req['cmd'] == 'corpus':
         mod = importlib.import_module('pvc.native.' + req['prop'].lower())
         with contextlib.redirect_stdout(io.StringIO()):
-            out = mod.corpus(req.get('seed', 0), req.get('n', 50))
+            out = getattr(mod, req.get('fn', 'corpus'))(req.get('seed', 0), req.get('n', 50))
     else:
         out = {"error": "unknown cmd"}
     json.dump(out, sys.stdout)
